@@ -36,6 +36,29 @@ SCALE = 10**7
 SAT = 2 * 10**9
 
 
+# ----------------------------------------------------------------------------- published call forms (FROZEN)
+# Names, order and defaults of the pinned tree, written down here on purpose (never read from the live
+# signature): a parameter inserted in the middle, renamed or re-ordered must show up as a wrong call.
+KIND_ORDER = ["non_negative", "l1_reg", "l2_reg", "l2_square_reg", "unimodality", "normalize", "simplex",
+              "normalized_sparsity", "soft_sparsity", "smoothness", "monotonicity", "hard_sparsity"]
+CP_OPTIONS = [("n_iter_max", 100), ("n_iter_max_inner", 10), ("init", "svd"), ("svd", "truncated_svd"), ("tol_outer", 1e-8),
+              ("tol_inner", 1e-6), ("random_state", None), ("verbose", 0), ("return_errors", False),
+              ("cvg_criterion", "abs_rec_error"), ("fixed_modes", None)] + [(k, None) for k in KIND_ORDER]
+SIG = {"constrained_parafac": [("tensor", None), ("rank", None)] + CP_OPTIONS,
+       "ConstrainedCP": [("rank", None)] + CP_OPTIONS,
+       "validate_constraints": [(k, None) for k in KIND_ORDER] + [("n_const", 1), ("order", 0)],
+       "proximal_operator": [("tensor", None)] + [(k, None) for k in KIND_ORDER] + [("n_const", 1), ("order", 0)]}
+
+
+def invoke(fn, name, form, **given):
+    """Call fn with `given` either entirely by published keyword or entirely positionally in the published order."""
+    unknown = set(given) - {k for k, _ in SIG[name]}
+    assert not unknown, unknown
+    if form == "positional":
+        return fn(*[given.get(k, default) for k, default in SIG[name]])
+    return fn(**given)
+
+
 # ----------------------------------------------------------------------------- spec -> python call
 def pyvalue(kind, p):
     if kind in BOOL:
@@ -132,7 +155,13 @@ def run_tensor(shape, fam, seed, scale=0, dtype="float64"):
         t = t * mask
     elif fam == "allneg":
         t = -(np.abs(t) + 0.1)
-    return (t * 2.0 ** scale).astype(dtype)             # exact power of two: only the units change
+    t = t * 2.0 ** scale
+    if fam == "denorm":                 # negative zeros and subnormals mixed with ordinary values
+        u = rng.rand(*shape)
+        t = np.where(u < 0.2, -0.0, np.where(u < 0.4, np.sign(t) * 5e-324, t))
+        if not np.any(np.abs(t) > 1e-300):
+            t.flat[0] = 2.0 ** scale
+    return t.astype(dtype)             # exact power of two: only the units change
 
 
 # ----------------------------------------------------------------------------- execute
@@ -143,18 +172,19 @@ def exec_map(case):
     vc = []
     for m in range(n):
         try:
-            k, p = validate_constraints(n_const=n, order=m, **kwargs_of(n, items))
+            k, p = invoke(validate_constraints, "validate_constraints", case.get("form", "keyword"), n_const=n, order=m,
+                          **kwargs_of(n, items))
             vc.append({"raised": False, "exc": "", "kind": "none" if k is None else str(k), "par": proj_par(k, p)})
         except Exception as ex:
             vc.append({"raised": True, "exc": type(ex).__name__, "kind": "none", "par": -1})
     np.random.seed(case["seed"] % (2**31))
     try:
-        constrained_parafac(map_tensor(n, case["seed"]), 2, n_iter_max=1, n_iter_max_inner=1, random_state=case["seed"],
-                            **kwargs_of(n, items))
+        invoke(constrained_parafac, "constrained_parafac", case.get("form", "keyword"), tensor=map_tensor(n, case["seed"]),
+               rank=2, n_iter_max=1, n_iter_max_inner=1, random_state=case["seed"], **kwargs_of(n, items))
         cp = {"raised": False, "exc": ""}
     except Exception as ex:
         cp = {"raised": True, "exc": type(ex).__name__}
-    return {"id": case["id"], "op": "map", "n": n, "items": items, "vc": vc, "cp": cp}
+    return {"id": case["id"], "op": "map", "n": n, "items": items, "form": case.get("form", "keyword"), "vc": vc, "cp": cp}
 
 
 def exact_problem(shape, rank, seed, scale, dtype, loose):
@@ -248,8 +278,15 @@ def problem_of(case):
         t, init = exact_problem(tuple(r["shape"]), r["rank"], case["seed"], r["scale"], r["dtype"], r["tol"] == "loose")
     start = []
     if not isinstance(init, str):       # the caller's start, measured BEFORE the call (copies: C15 is not our business)
-        start = [measure(f) for f in init[1]]
-        init = (None if init[0] is None else init[0].copy(), [f.copy() for f in init[1]])
+        facs = list(init[1])
+        if r.get("alias") and r["init"] != "exact":     # equal-sized modes share ONE array object
+            for i in range(len(facs)):
+                for j in range(i + 1, len(facs)):
+                    if facs[j].shape == facs[i].shape:
+                        facs[j] = facs[i]
+        start = [measure(f) for f in facs]
+        memo = {}
+        init = (None if init[0] is None else init[0].copy(), [memo.setdefault(id(f), f.copy()) for f in facs])
     return t, init, start
 
 
@@ -259,6 +296,8 @@ def call_options(case, init):
                 fixed_modes=list(r["fixed"]) if r["fixed"] else None, **kwargs_of(case["n"], case["items"]))
     if r["tol"] == "loose":
         opts["tol_outer"] = 1e-2
+    opts["cvg_criterion"] = r.get("cvg", "abs_rec_error")
+    opts["return_errors"] = bool(r.get("errors", False))
     return opts
 
 
@@ -270,10 +309,16 @@ def exec_run(case):
     ev = {"id": case["id"], "op": "run", "n": n, "items": items, "run": r, "raised": False, "exc": "", "factors": [], "start": start}
     try:
         opts = call_options(case, init)
+        form = r.get("form", "keyword")
         if r["via"] == "class":
-            cp = ConstrainedCP(r["rank"], **opts).fit_transform(t)
+            cp = invoke(ConstrainedCP, "ConstrainedCP", form, rank=r["rank"], **opts).fit_transform(t)
+        elif r["via"] == "class_fit":
+            cp = invoke(ConstrainedCP, "ConstrainedCP", form, rank=r["rank"], **opts).fit(t).decomposition_
         else:
-            cp = constrained_parafac(t, r["rank"], **opts)
+            cp = invoke(constrained_parafac, "constrained_parafac", form, tensor=t, rank=r["rank"], **opts)
+            if opts["return_errors"]:       # documented: a pair (decomposition, list of errors)
+                cp, errs = cp
+                len(errs)
         ev["factors"] = [measure(f) for f in cp.factors]
     except Exception as ex:
         ev["raised"], ev["exc"] = True, type(ex).__name__
@@ -286,7 +331,8 @@ def exec_prox(case):
     v = run_tensor((r["rows"], r["cols"]), r["data"], case["seed"], r["scale"], r["dtype"])
     ev = {"id": case["id"], "op": "prox", "n": n, "items": items, "run": r, "raised": False, "exc": "", "factor": {}}
     try:
-        ev["factor"] = measure(proximal_operator(v, n_const=n, order=r["mode"], **kwargs_of(n, items)))
+        ev["factor"] = measure(invoke(proximal_operator, "proximal_operator", r.get("form", "keyword"), tensor=v, n_const=n,
+                                      order=r["mode"], **kwargs_of(n, items)))
     except Exception as ex:
         ev["raised"], ev["exc"] = True, type(ex).__name__
     return ev
@@ -294,9 +340,37 @@ def exec_prox(case):
 
 def exec_seq(case):
     """Members run back to back in THIS process (one pool task): state surviving a call would show."""
-    if case["members"] and case["members"][0]["run"].get("built") == "before_sequence":
+    built = case["members"][0]["run"].get("built") if case["members"] else None
+    if built == "before_sequence":
         return {"id": case["id"], "members": exec_built_first(case)}
+    if built == "reused_estimator":
+        return {"id": case["id"], "members": exec_reused(case)}
     return {"id": case["id"], "members": [exec_run(m) for m in case["members"]]}
+
+
+def exec_reused(case):
+    """ONE estimator for the whole sequence: the caller assigns each member's options to the published attribute
+    names and fits again -- also right after a member whose request was (correctly) refused with an error."""
+    from tensorly.decomposition import ConstrainedCP
+    est, out = None, []
+    for m in case["members"]:
+        n, items, r = m["n"], m["items"], m["run"]
+        t, init, start = problem_of(m)
+        ev = {"id": m["id"], "op": "run", "n": n, "items": items, "run": r, "raised": False, "exc": "", "factors": [], "start": start}
+        np.random.seed(m["seed"] % (2**31))
+        try:
+            opts = call_options(m, init)
+            if est is None:
+                est = invoke(ConstrainedCP, "ConstrainedCP", r.get("form", "keyword"), rank=r["rank"], **opts)
+            else:
+                for name, default in SIG["ConstrainedCP"]:
+                    setattr(est, name, r["rank"] if name == "rank" else opts.get(name, default))
+            cp = est.fit(t).decomposition_ if r["via"] == "class_fit" else est.fit_transform(t)
+            ev["factors"] = [measure(f) for f in cp.factors]
+        except Exception as ex:
+            ev["raised"], ev["exc"] = True, type(ex).__name__
+        out.append(ev)
+    return out
 
 
 def exec_built_first(case):
@@ -310,7 +384,7 @@ def exec_built_first(case):
         ev = {"id": m["id"], "op": "run", "n": n, "items": items, "run": r, "raised": False, "exc": "", "factors": [], "start": start}
         est = None
         try:
-            est = ConstrainedCP(r["rank"], **call_options(m, init))
+            est = invoke(ConstrainedCP, "ConstrainedCP", r.get("form", "keyword"), rank=r["rank"], **call_options(m, init))
         except Exception as ex:
             ev["raised"], ev["exc"] = True, type(ex).__name__
         prepared.append((ev, est, t, m))
@@ -320,7 +394,8 @@ def exec_built_first(case):
             continue
         np.random.seed(m["seed"] % (2**31))
         try:
-            ev["factors"] = [measure(f) for f in est.fit_transform(t).factors]
+            cp = est.fit(t).decomposition_ if m["run"]["via"] == "class_fit" else est.fit_transform(t)
+            ev["factors"] = [measure(f) for f in cp.factors]
         except Exception as ex:
             ev["raised"], ev["exc"] = True, type(ex).__name__
     return [p[0] for p in prepared]
@@ -384,6 +459,7 @@ def run(chk, opts):
         return sorted(v["$set"], key=str) if isinstance(v, dict) else list(v)
     # falsy-but-given values: the spec says WHERE (parameter 0), the binding draws HOW it is written
     spellings = setof(dom[3]["falsy"])
+    forms = setof(dom[3]["forms"])
     for c in specs:
         for it in c["items"]:
             if any(p == 0 for p in it["pars"]):
@@ -391,7 +467,8 @@ def run(chk, opts):
 
     cases = []
     for k, c in enumerate(specs):
-        d = {"id": "C11/map/%06d" % k, "op": "map", "n": c["n"], "items": c["items"], "seed": chk.seed}
+        d = {"id": "C11/map/%06d" % k, "op": "map", "n": c["n"], "items": c["items"], "seed": chk.seed,
+             "form": forms[(k + chk.seed) % len(forms)]}
         d.update(describe(c["items"], c["n"]))
         cases.append(d)
     nmap = len(cases)
@@ -404,7 +481,8 @@ def run(chk, opts):
             rc = dict(shape=list(rng.choice(setof(d["shapes"]))), rank=rng.choice(setof(d["ranks"])), init=rng.choice(setof(d["inits"])),
                       outer=rng.choice(setof(d["outer"])), inner=rng.choice(setof(d["inner"])), data=rng.choice(setof(d["data"])),
                       fixed=list(rng.choice(setof(d["fixed"]))), via=rng.choice(setof(d["via"])),
-                      scale=rng.choice(setof(d["scales"])), dtype=rng.choice(setof(d["dtypes"])), tol=rng.choice(setof(d["tols"])), built="at_call")
+                      scale=rng.choice(setof(d["scales"])), dtype=rng.choice(setof(d["dtypes"])), tol=rng.choice(setof(d["tols"])), built="at_call",
+                      form=rng.choice(forms), cvg=rng.choice(setof(d["cvg"])), errors=rng.random() < 0.5, alias=rng.random() < 0.3)
             if rc["dtype"] == "float32" and rc["scale"] not in (0, -30):
                 continue
             return rc
@@ -470,7 +548,8 @@ def run(chk, opts):
         for _ in range(nprox_per):
             while True:
                 pr = dict(rows=rng.randint(2, 4), cols=rng.randint(1, 3), mode=rng.choice(req), data=rng.choice(setof(dom[c["n"]]["data"])),
-                          scale=rng.choice(setof(dom[c["n"]]["scales"])), dtype=rng.choice(setof(dom[c["n"]]["dtypes"])))
+                          scale=rng.choice(setof(dom[c["n"]]["scales"])), dtype=rng.choice(setof(dom[c["n"]]["dtypes"])),
+                          form=rng.choice(forms))
                 if not (pr["dtype"] == "float32" and pr["scale"] not in (0, -30)):
                     break
             k = len(cases)
@@ -487,8 +566,10 @@ def run(chk, opts):
     for q_ in range(nseq):
         c = rng.choice(seqbase)
         rc = draw_run(c["n"])
-        if q_ % 2:          # every other sequence: all estimators constructed first, fitted afterwards
-            rc.update(via="class", built="before_sequence")
+        if q_ % 3 == 1:     # all estimators constructed first, fitted afterwards
+            rc.update(via=rng.choice(["class", "class_fit"]), built="before_sequence")
+        elif q_ % 3 == 2:   # one estimator object, options re-assigned before every fit
+            rc.update(via=rng.choice(["class", "class_fit"]), built="reused_estimator")
         order = rng.sample(shifts, rng.choice([2, 3]))
         members = []
         if rng.random() < 0.25 and rejected[c["n"]]:      # a rejected request first: it must leave nothing behind
@@ -525,7 +606,7 @@ def run(chk, opts):
                 "; run domain also x outer 0 x data scale 2^{0,-70,-30,40} x dtype{float64,float32}; + %d proximal_operator events per "
                 "value regime; + %d sequences (%d runs) of 2-3 decompositions with the same keywords/modes and shifted parameters "
                 "executed back to back in one process (half of them: all ConstrainedCP estimators constructed first, fitted afterwards); "
-                "specifications include falsy-but-given keywords and entries (False, 0, 0.0, numpy.False_, None)"
+                "call form keyword/positional against a frozen signature table, via fit / fit_transform, reused estimator, aliased start factors, return_errors, cvg_criterion, -0.0/subnormal data, rank 5; specifications include falsy-but-given keywords and entries (False, 0, 0.0, numpy.False_, None)"
                 % (len(specs), nrej, nrun, per_single, got, nprox, nseq, nmembers))
     for e in events:
         if "items" in e:
